@@ -1,6 +1,7 @@
 package model
 
 import (
+	"fmt"
 	"math"
 
 	structform "github.com/elastic/go-structform"
@@ -18,6 +19,35 @@ type Recorder struct {
 	// amplifying input — see the open finding on UBJSON zero-payload typed
 	// containers — from exhausting memory in checks that record arbitrary bytes).
 	Limit int
+	// kept holds the strings exactly as they were handed to OnString/OnKey: a Go
+	// string is immutable, so a consumer may keep it; RetainedIntact compares
+	// them with the copies made inside the callbacks.
+	kept []keptString
+}
+
+type keptString struct {
+	ev int
+	s  string
+}
+
+// RetainedIntact returns "" when every string delivered BY VALUE (OnString,
+// OnKey) still has the content it had during its callback, and a description of
+// the first one that changed otherwise (the producer handed out a view of a
+// buffer it kept writing to).
+func (r *Recorder) RetainedIntact() string {
+	for _, k := range r.kept {
+		if k.ev < len(r.Evs) && k.s != string(r.Evs[k.ev].S) {
+			return fmt.Sprintf("the string delivered by value at event #%d was %q during the callback and reads %q after the document", k.ev, clip(r.Evs[k.ev].S), clip([]byte(k.s)))
+		}
+	}
+	return ""
+}
+
+func clip(b []byte) []byte {
+	if len(b) > 120 {
+		return b[:120]
+	}
+	return b
 }
 
 var _ structform.Visitor = (*Recorder)(nil)
@@ -37,20 +67,29 @@ func (r *Recorder) add(e Ev) error {
 	return nil
 }
 
-func (r *Recorder) Reset() { r.Evs = nil; r.N = 0 }
+func (r *Recorder) addKept(e Ev, s string) error {
+	n := len(r.Evs)
+	err := r.add(e)
+	if err == nil && len(r.Evs) == n+1 && len(s) > 0 {
+		r.kept = append(r.kept, keptString{n, s})
+	}
+	return err
+}
+
+func (r *Recorder) Reset() { r.Evs = nil; r.N = 0; r.kept = nil }
 
 func (r *Recorder) OnObjectStart(l int, bt structform.BaseType) error {
 	return r.add(Ev{K: KObjStart, L: l, T: uint8(bt)})
 }
 func (r *Recorder) OnObjectFinished() error { return r.add(Ev{K: KObjEnd}) }
-func (r *Recorder) OnKey(s string) error    { return r.add(Ev{K: KKey, S: []byte(s)}) }
+func (r *Recorder) OnKey(s string) error    { return r.addKept(Ev{K: KKey, S: []byte(s)}, s) }
 func (r *Recorder) OnArrayStart(l int, bt structform.BaseType) error {
 	return r.add(Ev{K: KArrStart, L: l, T: uint8(bt)})
 }
 func (r *Recorder) OnArrayFinished() error  { return r.add(Ev{K: KArrEnd}) }
 func (r *Recorder) OnNil() error            { return r.add(Ev{K: KNil}) }
 func (r *Recorder) OnBool(b bool) error     { return r.add(Ev{K: KBool, B: b}) }
-func (r *Recorder) OnString(s string) error { return r.add(Ev{K: KStr, S: []byte(s)}) }
+func (r *Recorder) OnString(s string) error { return r.addKept(Ev{K: KStr, S: []byte(s)}, s) }
 func (r *Recorder) OnInt8(i int8) error     { return r.add(Ev{K: KI8, I: int64(i)}) }
 func (r *Recorder) OnInt16(i int16) error   { return r.add(Ev{K: KI16, I: int64(i)}) }
 func (r *Recorder) OnInt32(i int32) error   { return r.add(Ev{K: KI32, I: int64(i)}) }
